@@ -250,11 +250,13 @@ def decide_and_report(prop, tier, seed, mod, agg):
         if hard:
             missed.append("%d shard(s) failed: %s" % (len(hard), hard[0]["why"]))
 
-    evid_dir = os.path.join(HOME, "evidence")
+    # a run against another tree (PYGOM_SRC: mutants, seeded changes) must never overwrite the evidence of /repo itself
+    selftest = bool(os.environ.get("PYGOM_SRC"))
+    evid_dir = os.path.join(HOME, "selftest_out", "evidence") if selftest else os.path.join(HOME, "evidence")
     os.makedirs(evid_dir, exist_ok=True)
     replay_paths = []
     if unknown_cases:
-        rdir = os.path.join(HOME, "replays", prop)
+        rdir = os.path.join(HOME, "selftest_out" if selftest else "", "replays", prop)
         os.makedirs(rdir, exist_ok=True)
         for v, unk in unknown_cases[:50]:
             path = os.path.join(rdir, "%s-seed%s-%s-case%s.json" % (tier, seed, v["lane"], v["idx"]))
